@@ -1278,3 +1278,51 @@ Proof.
   rewrite E5. eexists. split; [reflexivity|].
   unfold put. rewrite L4. cbn. rewrite T4. subst i. rewrite upd_app_len, nth_error_app_len. auto 10.
 Qed.
+
+(* ---------- refutation witnesses (the unchanged code, hence the model, does this) ---------- *)
+(* an event still in the receive queue is dropped by a release: idle_timeout 0, a step sent event 7
+   to its own run and returned None, the engine announces idle before pulling it *)
+Lemma wit_event_lost :
+  exists tau tr s, run tau init tr = Some s /\ raced (g s) = false /\ lost (g s) = [7] /\ rel_busy (g s) = 0%nat.
+Proof.
+  exists 0, [Start; EDone [7] 0%nat false false; EIdleDecide; EIdleWrite; Task 0%nat; Task 0%nat; Task 0%nat].
+  eexists. split; [vm_compute; reflexivity|]. vm_compute. auto.
+Qed.
+
+(* a waiter timeout that has not fired is dropped by a release (the run only waits: it is idle) *)
+Lemma wit_waiter_timeout_lost :
+  exists tau tr s, run tau init tr = Some s /\ raced (g s) = false /\ lost_timers (g s) = 1%nat /\
+                   released (g s) = true /\ sum_sched (loops s) = 0%nat.
+Proof.
+  exists 6, [Start; EDone [] 0%nat false true; EIdleDecide; EIdleWrite; Advance 6; Task 0%nat; Task 0%nat; Task 0%nat].
+  eexists. split; [vm_compute; reflexivity|]. vm_compute. auto.
+Qed.
+
+(* a retry that waits out its delay is dropped by a crash and is not there after the restart *)
+Lemma wit_retry_lost_at_crash :
+  exists tau tr s, run tau init tr = Some s /\ t_sched (g s) = 1%nat /\ t_woke (g s) = 0%nat /\
+                   t_dropped (g s) = 1%nat /\ active s = true /\ sum_retries (loops s) = 0%nat /\ busy s = 0%nat.
+Proof.
+  exists 64, [Start; EDone [] 0%nat true false; Crash; Restart; Task 0%nat].
+  eexists. split; [vm_compute; reflexivity|]. vm_compute. auto 10.
+Qed.
+
+(* server start resumes a run while a sender reloads it: the second workflow.run hits BasicRuntime's
+   guard, the sender's task dies with the RuntimeError and its event is gone *)
+Lemma wit_startup_race :
+  exists tau tr s, run tau init tr = Some s /\ raced (g s) = true /\ guard_hits (g s) = 1%nat /\
+                   undeliv (g s) = [5].
+Proof.
+  exists 64, [Start; Crash; Restart; Send 5; Task 1%nat; Task 0%nat; Task 1%nat].
+  eexists. split; [vm_compute; reflexivity|]. vm_compute. auto.
+Qed.
+
+(* non-vacuity: a run is released after the timeout and reloaded by the next event, truthfully *)
+Lemma wit_release_and_reload :
+  exists tau tr s, run tau init tr = Some s /\ run_truthful tau init tr = true /\ raced (g s) = false /\
+                   active s = true /\ log s = [3] /\ reloads (g s) = 1%nat /\ idle_since s = None.
+Proof.
+  exists 64, [Start; EDone [] 0%nat false false; EIdleDecide; EIdleWrite; Advance 64; Task 0%nat; Task 0%nat; Task 0%nat;
+              Send 3; Task 1%nat; Task 1%nat; Task 1%nat; Task 1%nat; EPull].
+  eexists. split; [vm_compute; reflexivity|]. vm_compute. auto 10.
+Qed.
